@@ -185,6 +185,8 @@ def check_case(ctx: runner.Ctx, case):  # noqa: C901
         ctx.count("not_creatable")
         return None
     arg = codec.build(case["datum"] if what == "load" else case["v"], e)
+    if what == "dump":
+        _move_streams(arg)   # streams in the middle of their content: dumping must neither depend on nor move the position
     before = tspec.canon(arg)
     outs = []
     for _ in range(2):
@@ -204,9 +206,11 @@ def check_case(ctx: runner.Ctx, case):  # noqa: C901
              labels=[f"what:{what}", f"outcome:{outs[0][0]}", f"mutable_typed_nodes:{min(nmut, 5)}", f"top:{t[0]}",
                      *[f"prov:{p}" for p in case.get("provs") or []]])
     head = f"{what} type={tspec.text(t)} strict={case['strict']} debug={case['debug']} input={case.get('datum', case.get('v'))!r}"
-    one_shot = any(isinstance(x, dict) and x.get("$") in ("gen", "bytesio") for x in _walk_spec(case.get("datum", case.get("v"))))
+    one_shot = any(isinstance(x, dict) and x.get("$") == "gen" for x in _walk_spec(case.get("datum", case.get("v"))))
     if before != after and not one_shot:
-        ctx.violation("argument_mutated", (what, t[0]), case, f"{head}: before={before!r} after={after!r}")
+        dd = any(isinstance(x, dict) and x.get("$") == "ddnone" for x in _walk_spec(case.get("datum", case.get("v"))))
+        ctx.violation("argument_mutated", (what, t[0], *(["defaultdict_input"] if dd and what == "load" else [])), case,
+                      f"{head}: before={before!r} after={after!r}")
     if outs[0][0] != outs[1][0]:
         if not one_shot:
             ctx.violation("repeat_outcome_differs", (what,), case, f"{head}: first {outs[0]!r}, second {outs[1]!r}")
@@ -231,6 +235,23 @@ def check_case(ctx: runner.Ctx, case):  # noqa: C901
             ctx.violation("mutable_container_shared", (what, name, type(obj).__name__), case,
                           f"{head}: {name} share {type(obj).__name__} {obj!r}")
     return None
+
+
+def _move_streams(o, depth=0):
+    import io  # noqa: PLC0415
+    if depth > 8:
+        return
+    if isinstance(o, io.BytesIO):
+        o.seek(len(o.getvalue()) // 2)
+    elif isinstance(o, dict):
+        for x in o.values():
+            _move_streams(x, depth + 1)
+    elif isinstance(o, (list, tuple, set, frozenset, collections.deque)):
+        for x in o:
+            _move_streams(x, depth + 1)
+    elif _is_model_instance(o):
+        for n in _field_names(o):
+            _move_streams(getattr(o, n, None), depth + 1)
 
 
 def _walk_spec(v):
@@ -407,7 +428,18 @@ def check_convert(ctx: runner.Ctx, case):
                                   f"{head}: converted field {fd['n']} shares its container")
 
 
+DEFAULTDICT_PROBE = {
+    "what": "load", "strict": True, "debug": 2, "ops": ["probe"], "provs": [],
+    "t": ["model", {"name": "M0", "kind": "dataclass", "fields": [{"n": "a", "t": ["int"], "d": None}, {"n": "b", "t": ["optional", ["int"], "optional"], "d": None}]}],
+    "datum": {"$": "ddnone", "v": [["a", 1]]},
+}
+
+
 def explore(ctx: runner.Ctx):
+    if ctx.shard == 0:
+        # open known finding C20-defaultdict-input-mutated: probed by one fixed case, never generated (the generated mappings
+        # are dicts and harness-defined mapping classes without a default factory)
+        runner.guarded(ctx, lambda c: check_case(ctx, c), DEFAULTDICT_PROBE)
     ctx.given(st_case(), lambda c: check_case(ctx, c), ctx.budget(7000, 300000))
 
 
